@@ -30,7 +30,7 @@ import yaml
 import factories
 from factories import big_table_memo
 
-STAGE_GENE_KINDS = ["toy", "multi", "cyp2a6", "gstm1"]
+STAGE_GENE_KINDS = ["toy", "multi", "delins", "cyp2a6", "gstm1"]
 _YAML_CACHE = {}
 _GENE_CACHE = {}
 
@@ -63,7 +63,7 @@ def stage_yaml(kind, repo="/repo"):
         doc = yaml.safe_load(text)
         al = doc["alleles"]
         doc["version"] = f"stages-{kind}"
-        if kind == "multi":
+        if kind in ("multi", "delins"):
             al["TOY*1.004"] = {"label": "TOY*1D", "mutations": [[115, "T>G", "rs1000b"]]}
             al["TOY*1.005"] = {"label": "TOY*1E", "mutations": [[135, "A>C", "rs1001"], [115, "T>A", "rs28371732"]]}
             al["TOY*2.002"] = {"label": "TOY*2B", "mutations": [[111, "delAC", "-", "frameshift"], [119, "insTT", "-", "frameshift"],
@@ -71,6 +71,9 @@ def stage_yaml(kind, repo="/repo"):
             al["TOY*7.001"] = {"label": "TOY*7", "mutations": [[119, "G>A", "-", "functional"], [151, "C>T", "-", "functional"]]}
             al["TOY*8.001"] = {"label": "TOY*8", "mutations": [[105, "T>G", "-", "functional"], [115, "T>A", "rs28371732"]]}
             al["random"] = [[137, "A>T", "rs1003"]]
+            if kind == "delins":
+                # a core deletion-insertion (shipped: CYP2A6*27 delGCinsT): a non-insertion variant whose name CONTAINS 'ins'
+                al["TOY*13.001"] = {"label": "TOY*13", "mutations": [[111, "delACinsT", "-", "frameshift"]]}
         elif kind == "cyp2a6":
             al["TOY*9.001"] = {"label": "TOY*9", "mutations": [["TOYP", "e2-"]]}
             al["TOY*10.001"] = {"label": "TOY*10", "mutations": [["TOYP", "e3-"], [151, "C>T", "-", "functional"]]}
